@@ -81,6 +81,12 @@ def run(outcome, tier, seed):
                                         "refused_reads": st["refusals"], "parsers_created": st["parsers"]}
     for s in st["samples"]:
         outcome.add_sample(s[:300])
+    # the two from_u32_unchecked sites: the decoders are tied to UtfModel (C17_scalars_valid is a theorem about that model)
+    st2 = shared.harness_corr(outcome, "utf", "UTF-16/32 decoders (what reaches char::from_u32_unchecked)", tier, seed)
+    for f in st2["oracle_failures"]:
+        outcome.oracle_failures.append({"what": "ill-formed UTF-16/32 input is not rejected, or the decoder's output is not the UTF-8 of scalar values "
+                                                "(a value that is not a Unicode scalar value reached char::from_u32_unchecked)", "case": f})
+    outcome.extra["decoder_correspondence"] = {"cases": st2["cases"], "kinds": st2["kinds"]}
     if tier == "thorough":
         run_valgrind(outcome, seed)
 
